@@ -12,10 +12,10 @@ pub struct World {
     pub env_pad: u64,
     pub stack: u8,       // 0 inherit, 1 16MiB, 2 64MiB, 3 unlimited
     pub malloc_tun: bool,
-    pub cwd_name: u8,    // 0 d0, 1 space, 2 unicode, 3 long, 4 very long (>512 bytes)
+    pub cwd_name: u8,    // 0 d0, 1 space, 2 unicode, 3 long, 4 very long (>512 bytes), 5 not valid UTF-8
     pub rel: u8,         // 0 script in cwd, 1 in sub dir, 2 in parent dir
     pub file_name: u8,   // 0 a.sd, 1 space, 2 unicode, 3 no extension, 4 non-UTF-8 bytes, 5 a file named `-`
-    pub spelling: u8,    // 0 plain, 1 ./, 2 .//, 3 detour zz/../, 4 absolute, 5 symlinked dir, 6 symlink to file, 12 `symlink/../name` with a same-named decoy in cwd, 13 /dev/stdin and 14 /proc/self/fd/0 with stdin open on the script, 15 /dev/stdin with the script unlinked after opening; fault spellings (set explicitly): 7 trailing slash, 8 directory, 9 symlink loop, 10 missing, 11 longer than PATH_MAX
+    pub spelling: u8,    // 0 plain, 1 ./, 2 .//, 3 detour zz/../, 4 absolute, 5 symlinked dir, 6 symlink to file, 12 `symlink/../name` with a same-named decoy in cwd, 13 /dev/stdin and 14 /proc/self/fd/0 with stdin open on the script, 15 /dev/stdin with the script unlinked after opening, 16 forty `../` in front of the absolute path; fault spellings (set explicitly): 7 trailing slash, 8 directory, 9 symlink loop, 10 missing, 11 longer than PATH_MAX
     pub argv0: u8,       // 0 exe path, 1 "seed", 2 "./odd name"
     pub env_kind: u8,    // 0 minimal, 1 typical, 2 junk
     pub locale: u8,      // 0 unset, 1 C, 2 en_US.UTF-8, 3 tr_TR.UTF-8, 4 nonsense
@@ -94,10 +94,10 @@ impl World {
             "env_pad" => self.env_pad = [1, 100, 4000, 8000, 1 + rng.below(8000)][rng.usize_below(5)],
             "stack" => self.stack = 1 + rng.below(3) as u8,
             "malloc_tun" => self.malloc_tun = true,
-            "cwd_name" => self.cwd_name = 1 + rng.below(4) as u8,
+            "cwd_name" => self.cwd_name = 1 + rng.below(5) as u8,
             "rel" => self.rel = 1 + rng.below(2) as u8,
             "file_name" => self.file_name = [1, 2, 3, 5][rng.usize_below(4)],
-            "spelling" => self.spelling = [1, 2, 3, 4, 5, 6, 12, 13, 14, 15][rng.usize_below(10)],
+            "spelling" => self.spelling = [1, 2, 3, 4, 5, 6, 12, 13, 14, 15, 16][rng.usize_below(11)],
             "argv0" => self.argv0 = 1 + rng.below(2) as u8,
             "env_kind" => self.env_kind = 1 + rng.below(2) as u8,
             "locale" => self.locale = 1 + rng.below(4) as u8,
@@ -210,10 +210,11 @@ impl World {
             "heap_pad" | "stack" | "rust_backtrace" | "pid" | "sig" | "umask" | "malloc_mode" => 3,
             "file_name" => 4,
             "env_pad" | "rel" | "argv0" | "env_kind" | "clock" | "fds" => 2,
-            "cwd_name" | "locale" | "stdin" | "script_mode" => 4,
+            "locale" | "stdin" | "script_mode" => 4,
+            "cwd_name" => 5,
             "stdout" | "stderr" => 7,
             "env_bytes" | "rlimit" => 6,
-            "spelling" => 10,
+            "spelling" => 11,
             _ => 0,
         }
     }
@@ -245,6 +246,12 @@ impl World {
 
     // Remove combinations that make no sense.
     pub fn normalize(&mut self) {
+        // bytes that are not valid UTF-8 in argv[1] are echoed lossily (fix 5476666): that is
+        // C02's world (file_name 4); everywhere else a non-UTF-8 cwd is combined with
+        // spellings that keep it out of argv[1]
+        if self.cwd_name == 5 && (self.spelling == 4 || self.spelling == 16) {
+            self.spelling = 1;
+        }
         // a script readable by its owner only cannot be read by another user: not a
         // world in which the same script "runs"
         if self.uid != 0 && self.script_mode == 1 {
